@@ -31,15 +31,23 @@ let run_arr ops =
   let a = ref arr_create and spec = ref [] in
   let mt = ref [] and st = ref [] in
   let ub = ref false and nontriv = ref 0 in
-  let drained = ref false and grown = ref 0 in
+  let drained = ref false and grown = ref 0 and enomem = ref 0 in
   List.iter (fun op ->
     if op <> "" then
+    (* "!op": the allocator refuses during this call (container-level C14) *)
+    let refuse = op.[0] = '!' in
+    let op = if refuse then String.sub op 1 (String.length op - 1) else op in
     match parse_op op with
     | None -> mt := "BADOP" :: !mt; st := "BADOP" :: !st
     | Some o ->
       let before = int_of_nat (arr_len !a) in
-      let (a', r) = arr_step true !a o in
-      let (l', r') = aspec_step !spec o in
+      let (a', r) = arr_step (not refuse) !a o in
+      (* reference: the list step; under a refusing allocator the only other admissible
+         outcome (theorem C19_array_run_alloc_refines) is ARES_ENOMEM with the list unchanged,
+         taken exactly when the model takes it *)
+      let (l', r') = match aspec_step !spec o, r with
+        | (_, RStatus Z0), RStatus s when refuse && s = aRES_ENOMEM -> incr enomem; (!spec, r)
+        | sr, _ -> sr in
       (match r with RUB -> ub := true | _ -> ());
       if int_of_nat (arr_len a') <> before then incr nontriv;
       (* the offset would reach alloc_cnt: the state that used to reject every later insert *)
@@ -51,6 +59,6 @@ let run_arr ops =
   mt := dump (arr_abs !a) :: !mt; st := dump !spec :: !st;
   (String.concat " " (List.rev !mt), String.concat " " (List.rev !st),
    if !ub then "model-ub" else if !nontriv < 2 then "trivial"
-   else "arr" ^ (if !drained then "-drained" else "") ^ (if !grown >= 3 then "-grow3" else ""))
+   else "arr" ^ (if !drained then "-drained" else "") ^ (if !grown >= 3 then "-grow3" else "") ^ (if !enomem > 0 then "-enomem" else ""))
 
 let () = Dsa_reg.register "arr" run_arr
